@@ -64,6 +64,9 @@ type GlobalTSOAllocator struct {
 	// which is used to estimate the MaxTS in a Global TSO generation
 	// to reduce the gRPC network IO latency.
 	syncRTT atomic.Value // store as int64 milliseconds
+	// syncMu makes the Global TSO generation with dc-locations (estimate, synchronize with
+	// all Local TSO Allocators, persist) run one at a time.
+	syncMu sync.Mutex
 }
 
 // NewGlobalTSOAllocator creates a new global TSO allocator.
@@ -169,6 +172,10 @@ func (gta *GlobalTSOAllocator) GenerateTSO(count uint32) (pdpb.Timestamp, error)
 
 	// Have dc-locations configured in the cluster, use the Global TSO generation way.
 	// (whit synchronization with other Local TSO Allocators)
+	// The steps below are not atomic: two requests running them concurrently may both fall back to
+	// the same collected max Local TSO and return the same timestamp, so handle one request at a time.
+	gta.syncMu.Lock()
+	defer gta.syncMu.Unlock()
 	ctx, cancel := context.WithCancel(context.Background())
 	defer cancel()
 	for i := 0; i < maxRetryCount; i++ {
